@@ -102,8 +102,8 @@ theorem table_nonvacuous : Vocab.known Vocab.lockPolicy = true →
     Generated.accesses.any (fun a => a.2.1 = "RetryClient.taskQueue" && a.2.2.1) = true ∧
     Generated.accesses.any (fun a => a.2.1 = "signaller.chPubAck" && a.2.2.1) = true := by decide +kernel
 
-/-- packets never interleave: every Transport.Write happens inside (*BaseClient).write, which holds muWrite -/
-theorem writes_serialised :
-    Generated.transportWriteSites = ["(*BaseClient).write"] ∧ Generated.writeHoldsMuWrite = true := by decide
+/-- packets never interleave: exactly one function calls Transport.Write (`(*BaseClient).write` today) and it takes muWrite first, releasing it by defer -/
+theorem writes_serialised : Vocab.known Vocab.lockPolicy = true →
+    Generated.transportWriteSites.length = 1 ∧ Generated.writeHoldsMuWrite = true := by decide +kernel
 
 end Mqtt.Lockset
